@@ -17,6 +17,7 @@ import random
 
 from ..loader import AnalysisError, ClassInfo, FuncInfo, Program, calls_in, dotted, norm, walk_no_nested
 from ..report import Ledger
+from ..normalize import flat
 from ..sym import DIFFERENT, EQUAL, UNDECIDED, Translator, Unsupported, Vocabulary, mat3, same, sp
 
 POS = {"positive": True}
@@ -367,7 +368,7 @@ def run(prog: Program, L: Ledger) -> None:
     L.floor("criteria classes with a real evaluate()", len(crits), 5)
     deltas = [1, -1] if L.tier == "quick" else [1, -1, 2, -2, 3, -3]
     for ci in crits:
-        f = prog.lookup_method(ci, "evaluate")
+        f = flat(prog, prog.lookup_method(ci, "evaluate"), ci)
         analyse(prog, L, ci, f, deltas)
     # default criteria used by drivers are covered
     check_properties(prog, L)
